@@ -42,6 +42,14 @@ class Facts:
         for body in self.bodies.values():
             if body.kind != "Closure":
                 self.by_key.setdefault((body.self_adt, body.trait, body.name), []).append(body)
+        # cfg(test) build: free functions of the crate are the unit tests (and the logger ctor); they are only
+        # *callers* of the library and are not analysed as library bodies
+        self.test_bodies = set()
+        if self.raw.get("test"):
+            for b in self.bodies.values():
+                root = self.bodies.get(b.owner, b) if b.kind == "Closure" else b
+                if root.kind == "Fn" and root.self_adt is None:
+                    self.test_bodies.add(b.path)
         self.adts = {a["name"]: a for a in self.raw["adts"]}
         self.impls = self.raw["impls"]
         self.unsafe = self.raw["unsafe"]
@@ -59,7 +67,7 @@ class Facts:
         return [b for b in self.bodies.values() if b.kind == "Closure" and b.parent == body.path]
 
     def all_bodies(self):
-        return list(self.bodies.values())
+        return [b for b in self.bodies.values() if b.path not in self.test_bodies]
 
 
 class Body:
